@@ -6,7 +6,7 @@ import tempfile
 from collections import defaultdict
 
 from engine import REPO, gen_states, pool_map
-from readers import join_lines, gaf_record, read_text, run_cli, write_text
+from readers import join_lines, gaf_record, read_text, run_cli, write_text, workdir
 
 EXTRA = ["tp:A:P", "NM:i:-3", "zd:Z:a:b c#1"]
 
@@ -88,7 +88,7 @@ def run_graph(job):
     import readers as _rd
 
     _rd.CASE = str(gid)
-    d = tempfile.mkdtemp(prefix="coords_")
+    d = workdir("coords_", gid)
     try:
         gfa = os.path.join(d, "g.gfa" + (".gz" if gfa_gz else ""))
         write_text(gfa, gfa_text(segs, [it[1] for it in walks]), "gz" if gfa_gz else "plain")
